@@ -189,6 +189,8 @@ def handle (m : String) (a : Json) : R Json := do
         pure (ExecArg.dict d) : R (ExecArg String))
     match selectAll parallel "<pool>" arg gens with
     | .error .needsParallel => return jObj [("err", jStr "ValueError"), ("at", jStr "prepare")]
+    | .error .badKey => return jObj [("err", jStr "ValueError"), ("at", jStr "prepare")]
+    | .error (.uncovered _) => return jObj [("err", jStr "ValueError"), ("at", jStr "prepare")]
     | .error (.noExecutor g outs) => return jObj [("err", jStr "ValueError"), ("at", jStr "submit"), ("gen", jNat g), ("outs", jList jStr outs)]
     | .ok r => return jObj [("choices", jList (jList (jPair (jList jStr) putChoice)) r)]
   | "map.sched" =>
